@@ -6,12 +6,30 @@ import time
 import warnings
 
 import numpy as np
-from scipy.optimize import least_squares
+import yaml
+from scipy.optimize import least_squares, OptimizeResult
 
-from holopy.core.holopy_object import HoloPyObject
+from holopy.core.holopy_object import HoloPyObject, YAMLLOADERS
 from holopy.core.metadata import flat, make_subset_data
 from holopy.scattering.errors import  MissingParameter
 from holopy.inference.result import FitResult, UncertainValue
+
+
+# The minimizer's OptimizeResult is stored with the FitResult; write it as a
+# plain mapping so that it can be read back (the default python-object tag is
+# rejected by the loaders).
+def _optimize_result_representer(dumper, data):
+    return dumper.represent_mapping('!OptimizeResult', dict(data))
+
+
+def _optimize_result_constructor(loader, node):
+    return OptimizeResult(loader.construct_mapping(node, deep=True))
+
+
+yaml.add_representer(OptimizeResult, _optimize_result_representer)
+for _loader in YAMLLOADERS:
+    yaml.add_constructor(
+        '!OptimizeResult', _optimize_result_constructor, Loader=_loader)
 
 
 class LeastSquaresScipyStrategy(HoloPyObject):
